@@ -83,9 +83,25 @@ Definition judge_mi_dec (args : list sx) (impl : sx) : bool :=
   | _, _ => sx_eqb m impl
   end.
 
+(* mi_interleave d streamA digestA streamB digestB k : decoder A delivers k bytes,
+   then decoder B is created and drained, then A is drained.  Decoders are
+   independent objects: the model decodes each stream on its own. *)
+Definition op_mi_interleave (args : list sx) : sx :=
+  match args with
+  | [d; SB sa; SB da; SB sb; SB db; SZ k] =>
+      match draft_of d with
+      | Some d' =>
+          let kk := Z.to_N k in
+          SL [run_mi_dec d' sa da 16384 [kk; 1000000]; run_mi_dec d' sb db 16384 [1000000]]
+      | None => bad_args
+      end
+  | _ => bad_args
+  end.
+
 Definition dispatch_mice (op : bytes) (args : list sx) : option sx :=
   if bytes_eqb op (s2b "sha256") then Some (op_sha256 args)
   else if bytes_eqb op (s2b "b64") then Some (op_b64 args)
   else if bytes_eqb op (s2b "mi_enc") then Some (op_mi_enc args)
   else if bytes_eqb op (s2b "mi_dec") then Some (op_mi_dec args)
+  else if bytes_eqb op (s2b "mi_interleave") then Some (op_mi_interleave args)
   else None.
